@@ -15,6 +15,61 @@ WWPDB = {  # wwPDB format 3.3, ATOM/HETATM, 0-based half-open
 MANDATORY = ["serial", "name", "alt_loc", "res_name", "chain_id", "res_seq", "ins_code", "x", "y", "z"]
 
 
+_PROBE_CACHE = {}
+
+
+def probed_columns(prog, cls_):
+    """Which columns of the line each attribute of a record class depends on, found by evaluation: the constructor is interpreted on a
+    full-width model record and on 80 variants that differ from it in one column each; an attribute belongs to the columns whose change
+    changes it.  Independent of how the constructor is written (slices, helpers, record tuples).
+    -> {attr: ((a, b), tolerant, 0)} like record_slices, or raises AnalysisError."""
+    key = (id(prog), cls_)
+    if key in _PROBE_CACHE:
+        return _PROBE_CACHE[key]
+    from ..guards import Flow
+    from ..objinterp import ObjRunner
+    base = f"{cls_:<6}12345 ABCDEFGH I6789J   1234.5672345.6783456.789111.22333.44      KLMNOPQR"
+    assert len(base) == 80
+    run = ObjRunner(prog, "pdb.py")
+
+    def read(line):
+        obj = run.new(cls_, line + "\n")
+        return {k: v for k, v in obj.items() if not k.startswith("__")}
+
+    try:
+        ref = read(base)
+    except Flow as fl:
+        raise AnalysisError(f"{cls_}(line) stops with {fl.value} on the probe record") from None
+    cols = {}
+    for c in range(6, 80):
+        ch = base[c]
+        new = str((int(ch) + 1) % 10) if ch.isdigit() else "7" if ch in ". " else ("Y" if ch == "Z" else "Z")
+        try:
+            got = read(base[:c] + new + base[c + 1:])
+        except Flow:
+            continue  # the variant is rejected: the column is read, by a strict field (found through its other columns)
+        for k in set(ref) | set(got):
+            if ref.get(k) != got.get(k):
+                cols.setdefault(k, []).append(c)
+    out = {}
+    for attr, cs in cols.items():
+        if cs != list(range(cs[0], cs[-1] + 1)):
+            # blank padding inside the span may be insensitive (a blank turned into a digit inside a text field always shows); keep the hull
+            pass
+        # strictness: a letter inside the field's span must not be silently replaced by a default
+        tolerant = False
+        if isinstance(ref.get(attr), (int, float)) and not isinstance(ref.get(attr), bool):
+            mid = cs[len(cs) // 2]
+            try:
+                got = read(base[:mid] + "X" + base[mid + 1:])
+                tolerant = True  # accepted: the bad value was replaced by something
+            except Flow:
+                tolerant = False
+        out[attr] = ((cs[0], cs[-1] + 1), tolerant, 0)
+    _PROBE_CACHE[key] = out
+    return out
+
+
 def record_slices(fn, linevar="line"):
     """attr -> ((a, b), tolerant?) for every `self.attr = conv(line[a:b]...)` in a record constructor."""
     out = {}
@@ -249,7 +304,12 @@ def rule_columns(prog, rep):
     tables = {}
     for name in ("ATOM", "HETATM"):
         fn = prog.func("pdb.py", f"{name}.__init__").node
-        tables[name] = record_slices(fn)
+        try:
+            tables[name] = probed_columns(prog, name)
+            r.info[f"columns_of_{name}"] = "found by evaluation (one-column variants of a model record)"
+        except AnalysisError:
+            tables[name] = record_slices(fn)
+            r.info[f"columns_of_{name}"] = "read off the slice expressions of the constructor"
         for attr, want in WWPDB.items():
             got = tables[name].get(attr)
             where = f"pdb2pqr/pdb.py:{got[2] if got else fn.lineno} ({name}.__init__)"
